@@ -161,6 +161,17 @@ CLAIMED['C07'] = {
           'generated messages each. One pair of spec versions; renaming of types is not exercised (names do not appear on the wire).',
   'design': '7.3 (C07)',
 }
+CLAIMED['C12'] = {
+  'text': 'Deterministic generation, mostly bounded: proved (z3) is ApiNamespace.normalize (every listing of the description is sorted and a '
+          'permutation of what it was: independent of insertion order, hence of what was compiled earlier). Byte-identity across processes is a '
+          'relation between runs that no function contract states: Compiler.build is run in this process (hash seed 0) for every built-in backend '
+          'that needs no template input (python_types, python_type_stubs, python_client, js_types, js_client, tsd_types) x three spec sets (one '
+          'with unions and structs carrying several omitted callers and redactors) and its files are compared byte for byte with fresh processes '
+          'under other hash seeds writing into other folders -- a BOUNDED stand-in, exhaustive over that grid in every run.',
+  'note': 'Found and fixed: _permissioned_tagmaps emitted as the repr of a set (F-C12-1). Not covered: swift / obj-c backends (template inputs), '
+          '"after running another backend in the same process".',
+  'design': '7.3 (C12)',
+}
 NOT_YET = {
  'C01': 'not decided by this technique in this revision: acceptance <=> language rules is a property of the whole frontend (ply lexer / LALR tables, '
         'the parser actions and the ten resolution passes of ir_generator.py, ~2000 lines over mutable AST/IR graphs), which is outside the Python '
@@ -168,9 +179,6 @@ NOT_YET = {
         'contracts/ir_types.py) and one layer does not decide the property',
  'C02': 'not decided: a whole-pipeline property (AST -> IR faithfulness across all passes). Proved pieces exist (ApiNamespace.add_route keeps the by-name '
         'tables equal to the route list) but the passes that build the description are outside the VC generator; not claimed on that basis',
- 'C12': 'not applicable to this technique: determinism across processes, hash seeds and output directories is a relation between runs; a function '
-        'contract can state order-insensitivity of one function over a set, which was planned for the anchor list but needs a model of set iteration '
-        'order that the engine does not have',
 }
 NA = {
  'C09': 'property of emitted Python source when imported; no contract on an emitting function can express the semantics of its output text',
